@@ -65,7 +65,7 @@ func honestSteps(from, to common.Slot, skip map[common.Slot]bool, mod func(st *c
 }
 
 // view makes a node view from the blocks selected by keep, with head = the last kept block of headBranch.
-func (b *Build) view(name string, keep func(it item) bool, headBranch string, extend common.Slot) (*View, error) {
+func (b *Build) view(name string, keep func(it item) bool, headBranch string, extend common.Slot, prune bool) (*View, error) {
 	v, err := NewView(name, b.genesis)
 	if err != nil {
 		return nil, err
@@ -92,7 +92,7 @@ func (b *Build) view(name string, keep func(it item) bool, headBranch string, ex
 	if extend > 0 {
 		v.ExtendSlots(head.Root, head.Slot+extend)
 	}
-	if err := v.SetHead(head); err != nil {
+	if err := v.SetHead(head, prune); err != nil {
 		return nil, fmt.Errorf("view %s: %w", name, err)
 	}
 	return v, nil
@@ -160,6 +160,8 @@ func buildP0(forks chain.ForkSchedule) (*Build, error) {
 		case 13:
 			st.AttesterSlashings = 1
 			st.AttesterSlashingSize = 2
+		case 25:
+			st.Exits = 1 // initiated, still active at the tip
 		}
 	}
 	if err := b.grow(c, "main", honestSteps(1, 5, skip, mod)); err != nil {
